@@ -46,10 +46,31 @@ structure DefWF (vf : Def → Bool) (df : Def) : Prop where
            else df.bitset = []
   verify : vf df = true
 
+/-- the frame chain of a fiber: frame at `stack` with its slots up to `stacktop`, then the previous frame -/
+def FramesWF : Nat → Nat → List Frame → Prop
+  | stack, _, [] => stack = 0
+  | stack, stacktop, fr :: rest =>
+    0 < stack ∧ stack < 2147483648 ∧ 0 ≤ fr.flags ∧ fr.flags < 2147483648 ∧ fr.prevframe + frameSize ≤ stack ∧
+    fr.pcdiff < 2147483648 ∧ ValWF fr.func ∧ fr.slots.length = stacktop - stack ∧ (∀ v ∈ fr.slots, ValWF v) ∧
+    FramesWF fr.prevframe (stack - frameSize) rest
+
+structure FiberWF (flags : Int) (frame stackstart stacktop maxstack : Nat) (frames : List Frame)
+    (env child : Option Val) (last : Val) : Prop where
+  hflags : 0 ≤ flags ∧ flags < 2147483648
+  noEnvBit : hasFlag flags fiberHasEnv = false
+  noChildBit : hasFlag flags fiberHasChild = false
+  setup : frame + frameSize ≤ stackstart ∧ stackstart ≤ stacktop ∧ stacktop ≤ maxstack ∧ maxstack < 2147483648
+  hframes : FramesWF frame (stackstart - frameSize) frames
+  henv : ∀ v, env = some v → ValWF v
+  hchild : ∀ v, child = some v → ValWF v
+  hlast : ValWF last
+
 def CObjWF : CObj → Prop
   | .data o => ObjWF o
   | .func _ envs => envs.length ≤ maxFuncEnvs
   | .abs _ _ _ => True
+  | .fiber flags frame stackstart stacktop maxstack frames env child last =>
+    FiberWF flags frame stackstart stacktop maxstack frames env child last
 
 def EnvWF : Env → Prop
   | .detached values => 0 < values.length ∧ values.length < 2147483648 ∧ ∀ v ∈ values, ValWF v
@@ -157,6 +178,10 @@ theorem marshalC_pos (fuel : Nat) (T : Heap) (x : Val) (c : Ct) (bs : List Nat) 
           | data d => cases d <;> exact W.lead_pos h
           | func di envs => exact W.lead_pos h
           | abs _ _ _ => simp [W.fail] at h
+          | fiber _ _ _ _ _ _ _ _ _ =>
+            obtain ⟨b1, c1, b2, _, hb, rfl⟩ := W.seq_some h
+            have := W.lead_pos hb
+            simp; omega
 
 /-! ### the induction -/
 
@@ -484,9 +509,104 @@ theorem def_paired (fm fu : Nat) (hT : HeapCWF vf T) (ih : OneOKC T vf fm) (ihd 
       rw [e2, def_nonref vf fu c lead rest hne, ← e2]; exact k3
 
 
+/-! ### fibers -/
+
+theorem frames_paired (g : Val → W) (ge : Nat → W) (rg : R Val) (rge : R Nat)
+    (hg : ∀ v, ValWF v → Paired T (g v) rg v) (hge : ∀ ei, Paired T (ge ei) rge ei) :
+    ∀ (frames : List Frame) (lf stack stacktop : Nat), stack < lf → FramesWF stack stacktop frames →
+      Paired T (W.list (marshalFrame g ge) frames) (readFrames rg rge lf stack stacktop) frames := by
+  intro frames
+  induction frames with
+  | nil =>
+    intro lf stack stacktop hlf h
+    have h0 : stack = 0 := h
+    subst h0
+    obtain ⟨lf', rfl⟩ : ∃ k, lf = k + 1 := ⟨lf - 1, by omega⟩
+    simp only [readFrames, if_true, W.list]
+    exact Paired.of_reads (Reads.pure [])
+  | cons fr rest ih =>
+    intro lf stack stacktop hlf h
+    obtain ⟨h1, h2, h3, h4, h5, h6, h7, h8, h9, h10⟩ := h
+    obtain ⟨lf', rfl⟩ : ∃ k, lf = k + 1 := ⟨lf - 1, by omega⟩
+    have hs : ¬ stack = 0 := by omega
+    simp only [readFrames, hs, if_false, W.list, marshalFrame]
+    rw [W.seq_assoc, W.seq_assoc, W.seq_assoc, W.ret_append_seq, W.ret_append_seq]
+    have hfl : Int32 (frameWireFlags fr) := by
+      unfold frameWireFlags; cases fr.env <;> simp [Int32] <;> omega
+    simp only [frameSize] at h5
+    refine Paired.prefix (Reads.int _ hfl) ?_
+    refine Paired.prefix (Reads.nat _ (by omega)) ?_
+    refine Paired.prefix (Reads.nat _ h6) ?_
+    refine Paired.seq_bind (hg fr.func h7) ?_
+    refine Paired.seq_bind (a := fr.env) ?_ ?_
+    · unfold frameWireFlags
+      cases he : fr.env with
+      | none =>
+        have : ¬ fr.flags < 0 := by omega
+        simp only [Option.isSome_none, Bool.false_eq_true, if_false, this]
+        exact Paired.of_reads (Reads.pure none)
+      | some ei =>
+        have : fr.flags - 2147483648 < 0 := by omega
+        simp only [Option.isSome_some, if_true, this]
+        exact Paired.map some (hge ei)
+    refine Paired.skip (Reads.guard _ (by simp [frameSize]; omega)) ?_
+    refine Paired.seq_bind (a := fr.slots) ?_ ?_
+    · rw [← h8]; exact Paired.list fr.slots fun v hv => hg v (h9 v hv)
+    refine Paired.value_eq (Paired.map _ (ih lf' fr.prevframe (stack - frameSize) (by omega) h10)) ?_
+    congr 1
+    cases fr with
+    | mk fl pf pc fn ev sl =>
+      simp only [frameWireFlags, Frame.mk.injEq, and_true]
+      simp only at h3 h4
+      cases ev <;> simp <;> omega
+
+theorem hasFlag_wire (flags : Int) (env child : Option Val) (h0 : 0 ≤ flags ∧ flags < 2147483648)
+    (h1 : hasFlag flags fiberHasEnv = false) (h2 : hasFlag flags fiberHasChild = false) :
+    hasFlag (fiberWireFlags flags env child) fiberHasEnv = env.isSome ∧
+    hasFlag (fiberWireFlags flags env child) fiberHasChild = child.isSome ∧
+    Int32 (fiberWireFlags flags env child) ∧
+    fiberWireFlags flags env child - (if env.isSome then fiberHasEnv else 0) - (if child.isSome then fiberHasChild else 0) = flags := by
+  simp only [hasFlag, fiberHasEnv, fiberHasChild, decide_eq_false_iff_not] at h1 h2
+  cases env <;> cases child <;>
+    simp only [fiberWireFlags, hasFlag, fiberHasEnv, fiberHasChild, Option.isSome_none, Option.isSome_some, Bool.false_eq_true,
+      if_false, if_true, decide_eq_true_eq, decide_eq_false_iff_not, Int32] <;>
+    refine ⟨?_, ?_, ?_, ?_⟩ <;> omega
+
+theorem fiberBody_paired (g : Val → W) (ge : Nat → W) (rg : R Val) (rge : R Nat)
+    (hg : ∀ v, ValWF v → Paired T (g v) rg v) (hge : ∀ ei, Paired T (ge ei) rge ei)
+    (flags : Int) (frame stackstart stacktop maxstack : Nat) (frames : List Frame) (env child : Option Val) (last : Val)
+    (h : FiberWF flags frame stackstart stacktop maxstack frames env child last) :
+    Paired T (marshalFiberBody g ge flags frame stackstart stacktop maxstack frames env child last)
+      (unmarshalFiberBody rg rge) (.fiber flags frame stackstart stacktop maxstack frames env child last) := by
+  obtain ⟨w1, w2, w3, w4⟩ := hasFlag_wire flags env child h.hflags h.noEnvBit h.noChildBit
+  obtain ⟨s1, s2, s3, s4⟩ := h.setup
+  simp only [frameSize] at s1
+  unfold marshalFiberBody unmarshalFiberBody
+  rw [W.ret_append_seq, W.ret_append_seq, W.ret_append_seq, W.ret_append_seq]
+  refine Paired.prefix (Reads.int _ w3) ?_
+  refine Paired.prefix (Reads.nat _ (by omega)) ?_
+  refine Paired.prefix (Reads.nat _ (by omega)) ?_
+  refine Paired.prefix (Reads.nat _ (by omega)) ?_
+  refine Paired.prefix (Reads.nat _ s4) ?_
+  refine Paired.skip (Reads.guard _ (by simp [frameSize]; omega)) ?_
+  refine Paired.seq_bind (frames_paired T g ge rg rge hg hge frames (frame + 1) frame (stackstart - frameSize) (by omega) h.hframes) ?_
+  refine Paired.seq_bind (a := env) ?_ ?_
+  · rw [w1]
+    cases env with
+    | none => simp only [Option.isSome_none, Bool.false_eq_true, if_false]; exact Paired.of_reads (Reads.pure none)
+    | some v => simp only [Option.isSome_some, if_true]; exact Paired.map some (hg v (h.henv v rfl))
+  refine Paired.seq_bind (a := child) ?_ ?_
+  · rw [w2]
+    cases child with
+    | none => simp only [Option.isSome_none, Bool.false_eq_true, if_false]; exact Paired.of_reads (Reads.pure none)
+    | some v => simp only [Option.isSome_some, if_true]; exact Paired.map some (hg v (h.hchild v rfl))
+  refine Paired.value_eq (Paired.map _ (hg last h.hlast)) ?_
+  rw [w1, w2, w4]
+
 /-! ### one value -/
 
 theorem one_paired (fm fu : Nat) (hT : HeapCWF vf T) (ih : OneOKC T vf fm) (ihd : DefOKC T vf fm) (ihe : EnvOKC T vf fm)
+    (ihp : ∀ k, k < fm → OneOKC T vf k ∧ EnvOKC T vf k)
     (hfu : fm ≤ fu) (x : Val) (hx : ValWF x) :
     Paired T (fun c => marshalC (fm + 1) T x c) (fun c d => unmarshalC (fu + 1) vf c d) x := by
   intro c bs c' tl hc hw
@@ -527,6 +647,27 @@ theorem one_paired (fm fu : Nat) (hT : HeapCWF vf T) (ih : OneOKC T vf fm) (ihd 
         | func di envs =>
           exact func_paired T vf fm fu id di envs ihd ihe hfu hwf ho c bs c' tl hc hw
         | abs _ _ _ => simp [W.fail] at hw
+        | fiber flags frame stackstart stacktop maxstack frames env child last =>
+          have hwf' : FiberWF flags frame stackstart stacktop maxstack frames env child last := hwf
+          cases fm with
+          | zero =>
+            obtain ⟨b1, c1, b2, _, hb, _⟩ := W.seq_some hw
+            simp [W.lead, W.fail] at hb
+          | succ f =>
+            obtain ⟨fu', rfl⟩ : ∃ k, fu = k + 1 := ⟨fu - 1, by omega⟩
+            obtain ⟨ih1, ih3⟩ := ihp f (by omega)
+            have e : ∀ c rest, unmarshalC (fu' + 1 + 1) vf c (lb_fiber :: rest) =
+                R.preObj (unmarshalFiberBody (fun c d => unmarshalC fu' vf c d) (unmarshalEnvWith (fun c d => unmarshalC fu' vf c d))) _root_.id c rest := by
+              intro c rest; simp [unmarshalC]
+            have P : Paired T (W.seq (W.markObj id) (W.lead lb_fiber (marshalFiberBody (fun v c => marshalC f T v c) (fun ei c => marshalEnv f T ei c)
+                  flags frame stackstart stacktop maxstack frames env child last)))
+                (fun c d => unmarshalC (fu' + 1 + 1) vf c d) (.ref id) := by
+              rw [W.markObj_lead_comm]
+              refine Paired.lead _ e ?_
+              exact Paired.preObj (mk := _root_.id) ho
+                (fiberBody_paired T _ _ _ _ (fun v hv => ih1 fu' (by omega) v hv) (fun ei => ih3 fu' (by omega) ei)
+                  flags frame stackstart stacktop maxstack frames env child last hwf')
+            exact P c bs c' tl hc hw
         | data d =>
           cases d with
           | real rb =>
@@ -628,25 +769,34 @@ theorem one_paired (fm fu : Nat) (hT : HeapCWF vf T) (ih : OneOKC T vf fm) (ihd 
                 (by intro c rest; simp [unmarshalC]) c bs c' tl hc hw
 
 /-- **all three functions, every depth budget** -/
-theorem all_roundtrip (hT : HeapCWF vf T) : ∀ fm, OneOKC T vf fm ∧ DefOKC T vf fm ∧ EnvOKC T vf fm := by
+theorem all_roundtrip_le (hT : HeapCWF vf T) : ∀ fm k, k ≤ fm → OneOKC T vf k ∧ DefOKC T vf k ∧ EnvOKC T vf k := by
   intro fm
   induction fm with
   | zero =>
+    intro k hk
+    obtain rfl : k = 0 := by omega
     refine ⟨?_, ?_, ?_⟩
     · intro fu _ x _ c bs c' tl _ hw; simp [marshalC, W.fail] at hw
     · intro fu _ di c bs c' tl _ hw; simp [marshalDef, W.fail] at hw
     · intro fu _ ei c bs c' tl _ hw; simp [marshalEnv, W.fail] at hw
   | succ f ih =>
-    obtain ⟨ih1, ih2, ih3⟩ := ih
-    refine ⟨?_, ?_, ?_⟩
-    · intro fu hfu x hx
-      obtain ⟨fu', rfl⟩ : ∃ k, fu = k + 1 := ⟨fu - 1, by omega⟩
-      exact one_paired T vf f fu' hT ih1 ih2 ih3 (by omega) x hx
-    · intro fu hfu di
-      obtain ⟨fu', rfl⟩ : ∃ k, fu = k + 1 := ⟨fu - 1, by omega⟩
-      exact def_paired T vf f fu' hT ih1 ih2 (by omega) di
-    · intro fu hfu ei
-      exact env_paired T vf f fu hT ih1 hfu ei
+    intro k hk
+    by_cases hle : k ≤ f
+    · exact ih k hle
+    · obtain rfl : k = f + 1 := by omega
+      obtain ⟨ih1, ih2, ih3⟩ := ih f (Nat.le_refl _)
+      refine ⟨?_, ?_, ?_⟩
+      · intro fu hfu x hx
+        obtain ⟨fu', rfl⟩ : ∃ k, fu = k + 1 := ⟨fu - 1, by omega⟩
+        exact one_paired T vf f fu' hT ih1 ih2 ih3 (fun j hj => ⟨(ih j (by omega)).1, (ih j (by omega)).2.2⟩) (by omega) x hx
+      · intro fu hfu di
+        obtain ⟨fu', rfl⟩ : ∃ k, fu = k + 1 := ⟨fu - 1, by omega⟩
+        exact def_paired T vf f fu' hT ih1 ih2 (by omega) di
+      · intro fu hfu ei
+        exact env_paired T vf f fu hT ih1 hfu ei
+
+theorem all_roundtrip (hT : HeapCWF vf T) (fm : Nat) : OneOKC T vf fm ∧ DefOKC T vf fm ∧ EnvOKC T vf fm :=
+  all_roundtrip_le T vf hT fm fm (Nat.le_refl _)
 
 end
 
